@@ -74,6 +74,13 @@ mod verif_c11_recver {
     /// (`largest` also counts empty frames, rcvbuf.largest_offset only real data; both only grow under the
     ///  `data_end <= max_stream_data` guard of `Recv::recv`; max_stream_data is only raised, capped at VARINT_MAX)
     fn any_recv() -> Recv<Sink> {
+        any_recv_w(any_waker())
+    }
+
+    /// same, with a given reader waker (the Incoming-level harnesses use `None`: every `Waker::wake` is an indirect
+    /// call that CBMC resolves against all candidate functions, which makes those harnesses 10x slower; wake-ups
+    /// are liveness and are exercised by the function-level harnesses)
+    fn any_recv_w(read_waker: Option<Waker>) -> Recv<Sink> {
         let nread: u64 = kani::any();
         let buf_largest: u64 = kani::any();
         let largest: u64 = kani::any();
@@ -82,7 +89,7 @@ mod verif_c11_recver {
         Recv {
             stream_id: any_sid(),
             rcvbuf: buf_with(nread, buf_largest),
-            read_waker: any_waker(),
+            read_waker,
             stop_state: if kani::any() { Some(kani::any()) } else { None },
             broker: Sink::default(),
             largest,
@@ -92,6 +99,10 @@ mod verif_c11_recver {
 
     /// an arbitrary `SizeKnown` state; invariant nread <= rcvbuf.largest_offset <= final_size <= 2^62-1 + 65535
     fn any_size_known() -> SizeKnown<Sink> {
+        any_size_known_w(any_waker())
+    }
+
+    fn any_size_known_w(read_waker: Option<Waker>) -> SizeKnown<Sink> {
         let nread: u64 = kani::any();
         let buf_largest: u64 = kani::any();
         let final_size: u64 = kani::any();
@@ -99,7 +110,7 @@ mod verif_c11_recver {
         SizeKnown {
             stream_id: any_sid(),
             rcvbuf: buf_with(nread, buf_largest),
-            read_waker: any_waker(),
+            read_waker,
             stop_state: if kani::any() { Some(kani::any()) } else { None },
             broker: Sink::default(),
             final_size,
@@ -147,6 +158,83 @@ mod verif_c11_recver {
         core::mem::forget(r);
     }
 
+    /// FIN path at function level: `Incoming::recv_data` handles a FIN-bearing frame in state Recv by calling exactly
+    /// `Recv::determin_size(&frame)` and then `SizeKnown::recv(frame, body)` on its result (incoming.rs, branch
+    /// `Recver::Recv(r) if stream_frame.is_fin()`); this harness runs the two real functions in that order.
+    /// OUTSIDE the bad region `offset+len > max_stream_data` (pinned in `fin_path_flow_control_finding`).
+    #[kani::proof]
+    #[kani::unwind(2)]
+    #[kani::stub(qevent::telemetry::macro_support::build_and_emit_event, noop_emit)]
+    #[kani::stub(std::fmt::format, stub_format)]
+    #[kani::stub(crate::recv::rcvbuf::RecvBuf::recv, crate::recv::rcvbuf::verif_rcvbuf_model::stub_recv)]
+    #[kani::stub(crate::recv::rcvbuf::RecvBuf::is_readable, crate::recv::rcvbuf::verif_rcvbuf_model::stub_is_readable)]
+    fn fin_path_contract() {
+        let mut r = any_recv();
+        let (mut f, body) = any_stream_frame(r.stream_id);
+        f.set_eos_flag(true);
+        let (nread0, bl0, m0, sid0, stop0) = (r.rcvbuf.nread(), r.rcvbuf.largest_offset(), r.max_stream_data, r.stream_id, r.stop_state);
+        let end = f.offset() + body.len() as u64;
+        kani::assume(end <= m0); // KNOWN bad region excluded, see fin_path_flow_control_finding
+        match r.determin_size(&f) {
+            Err(e) => {
+                assert!(end < bl0, "C12.recver.determin_size.err_only_when_final_below_received");
+                assert!(e.kind() == ErrorKind::FinalSize, "C12.recver.determin_size.final_below_received_is_final_size_error");
+                assert!(e.frame_type() == qbase::error::ErrorFrameType::from(f.frame_type()), "C12.recver.determin_size.error_names_frame_type");
+                assert!(r.rcvbuf.largest_offset() == bl0 && r.rcvbuf.nread() == nread0, "C12.recver.determin_size.refused_fin_changes_nothing");
+            }
+            Ok(mut sk) => {
+                assert!(end >= bl0, "C12.recver.determin_size.accepts_only_final_size_covering_received_data");
+                assert!(sk.final_size == end, "C12.recver.determin_size.final_size_is_end_of_fin_frame");
+                assert!(sk.stream_id == sid0 && sk.stop_state == stop0 && sk.rcvbuf.largest_offset() == bl0 && sk.rcvbuf.nread() == nread0,
+                        "C12.recver.determin_size.carries_stream_state_over");
+                let res = sk.recv(f, body);
+                match res {
+                    Ok(fresh) => {
+                        assert!(sk.rcvbuf.largest_offset() <= sk.final_size && sk.final_size <= m0,
+                                "C11.recver.fin_path.buffered_data_and_final_size_within_stream_limit");
+                        assert!(fresh as u64 == sk.rcvbuf.largest_offset() - bl0, "C11.recver.fin_path.fresh_is_growth_of_largest_offset");
+                    }
+                    Err(_) => assert!(false, "C12.recver.fin_path.first_fin_is_consistent_with_itself"),
+                }
+                kani::cover!(end > bl0, "C12.recver.fin_path.reach_fin_with_new_data");
+                kani::cover!(end == bl0, "C12.recver.fin_path.reach_fin_at_received_end");
+                core::mem::forget(sk);
+            }
+        }
+        kani::cover!(end < bl0, "C12.recver.fin_path.reach_final_below_received");
+        core::mem::forget(r);
+    }
+
+    /// FINDING (confined): a STREAM frame carrying FIN whose end lies beyond the advertised MAX_STREAM_DATA.
+    /// RFC 9000 4.1: the receiver MUST close the connection with FLOW_CONTROL_ERROR. Neither `determin_size` nor
+    /// `SizeKnown::recv` looks at `max_stream_data`, so the frame is accepted and its bytes are buffered.
+    #[kani::proof]
+    #[kani::unwind(2)]
+    #[kani::stub(qevent::telemetry::macro_support::build_and_emit_event, noop_emit)]
+    #[kani::stub(std::fmt::format, stub_format)]
+    #[kani::stub(crate::recv::rcvbuf::RecvBuf::recv, crate::recv::rcvbuf::verif_rcvbuf_model::stub_recv)]
+    #[kani::stub(crate::recv::rcvbuf::RecvBuf::is_readable, crate::recv::rcvbuf::verif_rcvbuf_model::stub_is_readable)]
+    fn fin_path_flow_control_finding() {
+        let mut r = any_recv();
+        let (mut f, body) = any_stream_frame(r.stream_id);
+        f.set_eos_flag(true);
+        let m0 = r.max_stream_data;
+        let end = f.offset() + body.len() as u64;
+        kani::assume(end > m0);
+        let refused = match r.determin_size(&f) {
+            Err(e) => e.kind() == ErrorKind::FlowControl,
+            Ok(mut sk) => {
+                let res = sk.recv(f, body);
+                let x = matches!(&res, Err(e) if e.kind() == ErrorKind::FlowControl);
+                core::mem::forget(res);
+                core::mem::forget(sk);
+                x
+            }
+        };
+        core::mem::forget(r);
+        assert!(refused, "C11.recver.fin_path.respects_stream_limit");
+    }
+
     /// the protocol-side handle plus a second handle to look at the state afterwards
     fn incoming_in_state(st: Recver<Sink>) -> (Incoming<Sink>, ArcRecver<Sink>) {
         let arc = ArcRecver(Arc::new(Mutex::new(Ok(st))));
@@ -165,7 +253,7 @@ mod verif_c11_recver {
     #[kani::stub(crate::recv::rcvbuf::RecvBuf::is_readable, crate::recv::rcvbuf::verif_rcvbuf_model::stub_is_readable)]
     #[kani::stub(crate::recv::rcvbuf::RecvBuf::available, crate::recv::rcvbuf::verif_rcvbuf_model::stub_available)]
     fn incoming_recv_data_in_recv_state_contract() {
-        let r = any_recv();
+        let r = any_recv_w(None);
         let (f, body) = any_stream_frame(r.stream_id);
         let (bl0, m0) = (r.rcvbuf.largest_offset(), r.max_stream_data);
         let end = f.offset() + body.len() as u64;
@@ -215,7 +303,8 @@ mod verif_c11_recver {
         core::mem::forget(arc);
     }
 
-    /// FINDING (confined): a STREAM frame carrying FIN whose end lies beyond the advertised MAX_STREAM_DATA.
+    /// the same FINDING through the real dispatcher `Incoming::recv_data` (thorough tier: Arc<Mutex<..>> round trips make
+    /// it slow). FINDING (confined): a STREAM frame carrying FIN whose end lies beyond the advertised MAX_STREAM_DATA.
     /// RFC 9000 4.1: the receiver MUST close the connection with FLOW_CONTROL_ERROR. The FIN path
     /// (`determin_size` -> `SizeKnown::recv`) never looks at `max_stream_data`.
     #[kani::proof]
@@ -225,8 +314,8 @@ mod verif_c11_recver {
     #[kani::stub(crate::recv::rcvbuf::RecvBuf::recv, crate::recv::rcvbuf::verif_rcvbuf_model::stub_recv)]
     #[kani::stub(crate::recv::rcvbuf::RecvBuf::is_readable, crate::recv::rcvbuf::verif_rcvbuf_model::stub_is_readable)]
     #[kani::stub(crate::recv::rcvbuf::RecvBuf::available, crate::recv::rcvbuf::verif_rcvbuf_model::stub_available)]
-    fn fin_path_flow_control_finding() {
-        let r = any_recv();
+    fn incoming_fin_path_flow_control_finding() {
+        let r = any_recv_w(None);
         let (mut f, body) = any_stream_frame(r.stream_id);
         f.set_eos_flag(true);
         let m0 = r.max_stream_data;
@@ -238,7 +327,7 @@ mod verif_c11_recver {
         let ok = matches!(&res, Err(e) if e.kind() == ErrorKind::FlowControl);
         core::mem::forget(res);
         core::mem::forget(inc);
-        assert!(ok, "C11.recver.fin_path.respects_stream_limit");
+        assert!(ok, "C11.recver.recv_data.fin_respects_stream_limit");
     }
 
     /// contract of `SizeKnown::recv` (C12 final-size rules once the size is known)
@@ -360,11 +449,11 @@ mod verif_c11_recver {
     fn incoming_recv_reset_contract() {
         let known: bool = kani::any();
         let (st, sid, lower_bound, expect_eq) = if known {
-            let s = any_size_known();
+            let s = any_size_known_w(None);
             let (sid, fs) = (s.stream_id, s.final_size);
             (Recver::SizeKnown(s), sid, fs, true)
         } else {
-            let r = any_recv();
+            let r = any_recv_w(None);
             // bad region of Recv::recv_reset (final size beyond the stream limit) is pinned separately
             let (sid, l) = (r.stream_id, r.largest);
             (Recver::Recv(r), sid, l, false)
